@@ -1,5 +1,6 @@
 """C05 -- SQLAlchemy class, Table and hybrid forms round-trip and agree."""
 import ast
+import re
 import contextlib
 import copy
 import io
@@ -13,7 +14,7 @@ from ..pool import guarded, run_cases
 THEOREMS = ["C05_one_pk", "C05_examples"]
 VARIANTS = ("sqlalchemy", "sqlalchemy_table", "sqlalchemy_hybrid")
 STYLES = ("rest", "google", "numpydoc")
-COLNAMES = ["size", "label", "active", "ratio", "note", "count", "dataset_name", "user_id", "id", "id_code", "title", "weight"]
+COLNAMES = ["size", "label", "active", "ratio", "note", "count", "dataset_name", "user_id", "id", "id_code", "title", "weight", "_rev", "_hidden"]
 DOCS = ["how big", "the label", "Primary key of the account", "account number", "the ratio", "a note", "Key of the thing"]
 
 
@@ -32,7 +33,8 @@ def gen_ir(rng):
         elif k < 0.85:
             t = "Optional[%s]" % base
         else:
-            t = "Literal[%s]" % ", ".join("'%s'" % m for m in sorted(rng.sample(["a", "b", "np", "tf"], rng.randint(2, 3))))
+            mem = rng.sample(["a", "b", "np", "tf", "low", "medium", "high"], rng.randint(2, 3))
+            t = "Literal[%s]" % ", ".join("'%s'" % m for m in (sorted(mem) if rng.random() < 0.5 else mem))
         doc = rng.choice(DOCS)
         if not pk_given and rng.random() < 0.25:
             doc = rng.choice(["[PK]", "[PK] " + doc])
@@ -120,6 +122,13 @@ def check_case(ir):
                         if extra == ["id"]:
                             continue        # the forced / inferred surrogate key is the documented normalisation
                     items.append(("C05/roundtrip/%s" % cls, dict(det, config=tag)))
+                # Enum members keep their order (the generic comparison treats Literal members as a set)
+                for k, p_in in strip_pk(ir)["params"].items():
+                    p_out = (strip_pk(out).get("params") or {}).get(k)
+                    ta, tb = p_in.get("typ") or "", (p_out or {}).get("typ") or ""
+                    ma, mb = re.findall(r"'([^']*)'", ta), re.findall(r"'([^']*)'", tb)
+                    if "Literal[" in ta and "Literal[" in tb and sorted(ma) == sorted(mb) and ma != mb:
+                        items.append(("C05/roundtrip/param/literal-member-order", {"param": k, "in": ta, "out": tb, "config": tag}))
             # interchangeability: the three emissions of one interface parse to the same columns
             keys = [v for v in VARIANTS if v in outs]
             for a, b in zip(keys, keys[1:]):
